@@ -485,15 +485,9 @@ class C17(GinProp):
         case = gin.gen_game(rng)
         if rng.random() < 0.1:
             # a game (re)started with an explicitly EMPTY public card map (nothing is asserted about any card): everything the
-            # property demands of the map and of the views still applies; the Lean model always starts from the up-card entry,
-            # so these cases are judged by the oracle alone
+            # property demands of the map and of the views still applies (model: `newGameWith`, theorems Props/C17b.lean)
             case["hud0"] = "empty"
         return gin.play(rng, case, probes=self.probes)
-
-    def correspondence(self, case, evs):
-        if case.get("hud0"):
-            return []
-        return super().correspondence(case, evs)
 
     def oracle(self, case, evs):
         why = []
